@@ -374,15 +374,50 @@ func (x *g) allSol(d int) *rt.Term {
 // conj builds a conjunction of 1..max goals; cut says a bare ! may be a direct conjunct.
 func (x *g) conj(d, max int, cut bool) *rt.Term {
 	n := x.n(1, max, "conjlen")
+	if max >= 3 && x.p(12, "longconj") {
+		n = x.n(4, 5, "longconjlen")
+	}
 	gs := make([]*rt.Term, 0, n)
+	cutVar := int64(-1)
 	for i := 0; i < n; i++ {
-		if cut && x.p(25, "cut") {
+		switch {
+		case cut && x.f.Call && cutVar < 0 && i+1 < n && x.p(4, "cutvar"):
+			// the cut is supplied through a variable bound before the enclosing call/1 converts its goal
+			cutVar = int64(800 + x.n(0, 9, "cutvarid"))
+			gs = append(gs, rt.V(cutVar))
+		case cut && x.p(25, "cut"):
 			gs = append(gs, rt.A("!"))
-		} else {
+		default:
 			gs = append(gs, x.goal(d))
 		}
 	}
-	return Conj(gs)
+	body := x.assoc(gs)
+	if cutVar >= 0 {
+		// C = !, call((..., C, ...)): ISO 7.6.2 converts the dereferenced goal, so C is a cut local to the call
+		return rt.C(",", rt.C("=", rt.V(cutVar), rt.A("!")), rt.C("call", body))
+	}
+	return body
+}
+
+// assoc joins goals into a conjunction: usually right-nested (as the parser reads a, b, c), otherwise
+// a random bracketing ((a, b), c), ((a, b), (c, d)), ... which is the same conjunction (ISO 7.6.2:
+// the body conversion goes through both arguments of ','/2, so a cut keeps its clause-level meaning).
+func (x *g) assoc(gs []*rt.Term) *rt.Term {
+	if len(gs) <= 2 || !x.p(35, "assoc") {
+		return Conj(gs)
+	}
+	return x.tree(gs)
+}
+
+func (x *g) tree(gs []*rt.Term) *rt.Term {
+	if len(gs) == 1 {
+		return gs[0]
+	}
+	k := x.n(1, len(gs)-1, "split")
+	if x.p(50, "leftheavy") {
+		k = len(gs) - 1
+	}
+	return rt.C(",", x.tree(gs[:k]), x.tree(gs[k:]))
 }
 
 // Conj right-nests goals into a conjunction.
